@@ -157,6 +157,248 @@ theorem closed_ends_everything (s : Sess) (acts : List HAct) :
 theorem api_keeps_transport_down (s : Sess) (a : Api) : (step s (.api a)).1.transport = s.transport :=
   (stableLiftQ.toLift.api a trivial).1
 
+/-! the same for every other event: only `onOpen` / `onClose` write the transport reference -/
+
+theorem stable_refl (s : Sess) (o : List SOut) : Stable s o s := ⟨rfl, rfl⟩
+
+theorem runLeaf_stable (s : Sess) (k : Cont) : Stable s (runLeaf s k).2 (runLeaf s k).1 := by
+  cases k with
+  | closeIfTransport => simp only [runLeaf]; split <;> exact ⟨rfl, rfl⟩
+  | welcome2 act => simp only [runLeaf]; exact runHook_stable s .onJoin 0 act _ (fun s => ⟨rfl, rfl⟩)
+  | connect _ => exact ⟨rfl, rfl⟩
+  | welcome1 _ _ _ => exact ⟨rfl, rfl⟩
+  | challenge1 _ _ => exact ⟨rfl, rfl⟩
+  | invDone _ _ => exact ⟨rfl, rfl⟩
+
+theorem deferLeaf_stable (s : Sess) (k : Cont) : Stable s (deferLeaf s k).2 (deferLeaf s k).1 := by
+  unfold deferLeaf
+  split
+  · exact runLeaf_stable s k
+  · exact ⟨rfl, rfl⟩
+
+theorem replySend_stable (s : Sess) (m : OutMsg) : Stable s (replySend s m).2.1 (replySend s m).1 := by
+  unfold replySend; split <;> exact ⟨rfl, rfl⟩
+
+theorem sendWithFallback_stable (s : Sess) (r : ReqId) (m : OutMsg) : Stable s (sendWithFallback s r m).2 (sendWithFallback s r m).1 := by
+  unfold sendWithFallback
+  simp only []
+  split
+  · exact replySend_stable s m
+  · split
+    · exact replySend_stable s m
+    · exact stable_trans (replySend_stable s m) (replySend_stable _ _)
+
+theorem invDone_stable (s : Sess) (r : ReqId) (o : EOut) : Stable s (invDone s r o).2 (invDone s r o).1 := by
+  unfold invDone
+  split
+  · exact ⟨rfl, rfl⟩
+  · simp only []
+    split
+    · split
+      · exact ⟨rfl, rfl⟩
+      · exact stable_trans (s2 := { s with invs := adel r s.invs }) (o1 := []) ⟨rfl, rfl⟩ (sendWithFallback_stable _ _ _)
+    · split
+      · exact ⟨rfl, rfl⟩
+      · split
+        · exact ⟨rfl, rfl⟩
+        · exact stable_trans (s2 := { s with invs := adel r s.invs }) (o1 := []) ⟨rfl, rfl⟩ (sendWithFallback_stable _ _ _)
+
+theorem challengeFail_stable (s : Sess) (lact : HAct) : Stable s (challengeFail s lact).2 (challengeFail s lact).1 := by
+  unfold challengeFail
+  split
+  · exact ⟨rfl, rfl⟩
+  · exact leaveHook_stable s 3 lact
+
+theorem runCont_stable (s : Sess) (k : Cont) : Stable s (runCont s k).2 (runCont s k).1 := by
+  cases k with
+  | closeIfTransport => exact runLeaf_stable s _
+  | welcome2 act => exact runLeaf_stable s _
+  | connect act =>
+    simp only [runCont]
+    exact runHook_stable s .onConnect 0 act apiJoin (fun s => stableLiftQ.toLift.api .join trivial)
+  | welcome1 sid res jact =>
+    simp only [runCont]
+    cases res with
+    | deny => simp only []; split <;> exact ⟨rfl, rfl⟩
+    | raised => simp only []; split <;> exact ⟨rfl, rfl⟩
+    | ok =>
+      simp only []
+      split
+      · exact ⟨rfl, rfl⟩
+      · exact stable_trans (s2 := { s with sessionId := some sid }) (o1 := []) ⟨rfl, rfl⟩ (deferLeaf_stable _ _)
+  | challenge1 res lact =>
+    simp only [runCont]
+    cases res with
+    | sig =>
+      simp only []
+      split
+      · exact ⟨rfl, rfl⟩
+      · split
+        · exact ⟨rfl, rfl⟩
+        · exact challengeFail_stable s lact
+    | none_ =>
+      simp only []
+      split
+      · exact ⟨rfl, rfl⟩
+      · exact challengeFail_stable s lact
+    | raised => exact challengeFail_stable s lact
+  | invDone r o => exact invDone_stable s r o
+
+theorem defer_stable (s : Sess) (k : Cont) : Stable s (defer s k).2 (defer s k).1 := by
+  unfold defer
+  split
+  · exact runCont_stable s k
+  · exact ⟨rfl, rfl⟩
+
+theorem settleInv_stable (s : Sess) (r : ReqId) (o : EOut) : Stable s (settleInv s r o).2 (settleInv s r o).1 := by
+  unfold settleInv
+  split
+  · exact ⟨rfl, rfl⟩
+  · next x _ =>
+    split
+    · exact ⟨rfl, rfl⟩
+    · exact stable_trans (s2 := { s with invs := aupd r { x with st := .fired } s.invs }) (o1 := []) ⟨rfl, rfl⟩ (defer_stable _ _)
+
+theorem progressLoop_stable (s : Sess) (r : ReqId) (vs : List Val) : Stable s (progressLoop s r vs).2.1 (progressLoop s r vs).1 := by
+  induction vs generalizing s with
+  | nil => exact ⟨rfl, rfl⟩
+  | cons v vs ih =>
+    unfold progressLoop
+    split
+    · exact ⟨rfl, rfl⟩
+    · simp only []
+      split
+      · exact stable_trans (replySend_stable s _) (ih _)
+      · exact replySend_stable s _
+
+theorem onInvocation_stable (s : Sess) (beh : List HAct) (r : ReqId) (reg : RegId) (p : Payload) (rp : Bool) :
+    Stable s (onInvocation s beh r reg p rp).2 (onInvocation s beh r reg p rp).1 := by
+  unfold onInvocation
+  split
+  · exact ⟨rfl, rfl⟩
+  · split
+    · exact ⟨rfl, rfl⟩
+    · next g _ =>
+      simp only []
+      generalize hs0 : (if (g.detailsArg.isSome && rp) = true then { s with progs := r :: s.progs } else s) = s0
+      have h0 : Stable s ([] : List SOut) s0 := by subst hs0; split <;> exact ⟨rfl, rfl⟩
+      have h1 := progressLoop_stable s0 r (if (g.detailsArg.isSome && rp) = true then (beh.headD {}).progress else [])
+      generalize (progressLoop s0 r (if (g.detailsArg.isSome && rp) = true then (beh.headD {}).progress else [])) = r1 at h1 ⊢
+      have h2 : Stable r1.1 (if r1.2.2 = true then (r1.1, []) else runCalls r1.1 none (beh.headD {}).calls).2
+          (if r1.2.2 = true then (r1.1, []) else runCalls r1.1 none (beh.headD {}).calls).1 := by
+        split
+        · exact ⟨rfl, rfl⟩
+        · exact stableLiftQ.toLift.runCalls trivial none _
+      generalize (if r1.2.2 = true then (r1.1, []) else runCalls r1.1 none (beh.headD {}).calls) = r2 at h2 ⊢
+      generalize (if r1.2.2 = true then some (EOut.raised .sendExc)
+        else if (beh.headD {}).raises = true then some (EOut.raised (beh.headD {}).exc)
+        else if (beh.headD {}).ret = Ret.pending then none else some (retOut (beh.headD {}).ret)) = outcome
+      have h012 : Stable s ([] : List SOut) r2.1 := stable_trans (stable_trans h0 h1 (o3 := [])) h2
+      cases outcome with
+      | none => exact ⟨h012.1, h012.2⟩
+      | some o =>
+        have h3 := defer_stable { r2.1 with invs := aset r { reg := reg, st := IState.fired } r2.1.invs } (.invDone r o)
+        exact ⟨h3.1.trans h012.1, h3.2.trans h012.2⟩
+
+theorem lateProgress_stable (s : Sess) (r : ReqId) (v : Val) : Stable s (lateProgress s r v).2 (lateProgress s r v).1 := by
+  unfold lateProgress
+  split
+  · exact ⟨rfl, rfl⟩
+  · split
+    · exact ⟨rfl, rfl⟩
+    · exact replySend_stable s _
+
+theorem preSession_stable (s : Sess) (beh : List HAct) (m : InMsg) : Stable s (preSession s beh m).2 (preSession s beh m).1 := by
+  cases m with
+  | welcome sid =>
+    simp only [preSession]
+    exact stable_trans (runHook_stable s .onWelcome 0 _ _ (fun s => ⟨rfl, rfl⟩)) (defer_stable _ _)
+  | abort => exact leaveHook_stable s 2 _
+  | challenge =>
+    simp only [preSession]
+    exact stable_trans (runHook_stable s .onChallenge 0 _ _ (fun s => ⟨rfl, rfl⟩)) (defer_stable _ _)
+  | goodbye => exact ⟨rfl, rfl⟩
+  | result _ _ _ => exact ⟨rfl, rfl⟩
+  | error _ _ _ _ => exact ⟨rfl, rfl⟩
+  | published _ _ => exact ⟨rfl, rfl⟩
+  | subscribed _ _ => exact ⟨rfl, rfl⟩
+  | unsubscribed _ => exact ⟨rfl, rfl⟩
+  | registered _ _ => exact ⟨rfl, rfl⟩
+  | unregistered _ _ => exact ⟨rfl, rfl⟩
+  | event _ _ _ => exact ⟨rfl, rfl⟩
+  | invocation _ _ _ _ => exact ⟨rfl, rfl⟩
+  | interrupt _ => exact ⟨rfl, rfl⟩
+  | other => exact ⟨rfl, rfl⟩
+
+theorem onEstablished_stable (s : Sess) (beh : List HAct) (m : InMsg) : Stable s (onEstablished s beh m).2 (onEstablished s beh m).1 := by
+  by_cases hm : m.isReplySide = true
+  · exact stableLiftQ.established trivial beh m hm
+  · cases m <;> simp [InMsg.isReplySide] at hm
+    · simp only [onEstablished]
+      split
+      · exact ⟨rfl, rfl⟩
+      · exact stable_trans (s2 := { s with sessionId := none }) (o1 := []) ⟨rfl, rfl⟩ (leaveHook_stable _ 0 _)
+    · exact onInvocation_stable s beh _ _ _ _
+    · exact settleInv_stable s _ _
+
+theorem tickList_stable (s : Sess) (items : List SOut) : Stable s (tickList s items).2 (tickList s items).1 := by
+  induction items generalizing s with
+  | nil => exact ⟨rfl, rfl⟩
+  | cons o rest ih =>
+    cases o with
+    | later k => simp only [tickList]; exact stable_trans (runCont_stable s k) (ih _)
+    | _ => simp only [tickList]; exact ih s
+
+theorem drain_stable (n : Nat) (s : Sess) : Stable s (drain n s).2 (drain n s).1 := by
+  induction n generalizing s with
+  | zero => exact ⟨rfl, rfl⟩
+  | succ n ih =>
+    unfold drain
+    split
+    · exact ⟨rfl, rfl⟩
+    · exact stable_trans (o3 := []) (stable_trans (s2 := { s with cbq := [] }) (o1 := []) (o3 := []) ⟨rfl, rfl⟩ (tickList_stable _ _)) (ih _)
+
+/-- `transport_written_only_by_onOpen_and_onClose`: no other event — message of any kind, API call, loop iteration,
+completion of an endpoint result, … with whatever user code runs inside — changes whether the session holds a
+transport. So after `onClose` the API guard of `api_fails_fast_after_end` applies until the object is opened again. -/
+theorem transport_written_only_by_onOpen_and_onClose (s : Sess) (e : SEv) (ho : ∀ acts, e ≠ .open_ acts) (hc : ∀ acts, e ≠ .closed acts) :
+    (step s e).1.transport = s.transport := by
+  cases e with
+  | api a => exact (stableLiftQ.toLift.api a trivial).1
+  | msg m beh =>
+    simp only [step, onMessage]
+    split
+    · exact (preSession_stable s beh m).1
+    · exact (onEstablished_stable s beh m).1
+  | pump => exact (drain_stable 8 s).1
+  | tick => exact (stable_trans (s2 := { s with cbq := [] }) (o1 := []) (o3 := []) ⟨rfl, rfl⟩ (tickList_stable _ _)).1
+  | open_ acts => exact absurd rfl (ho acts)
+  | closed acts => exact absurd rfl (hc acts)
+  | fault l => rfl
+  | resolve r v => exact (settleInv_stable s r _).1
+  | fail r x => exact (settleInv_stable s r _).1
+  | lateProgress r v => exact (lateProgress_stable s r v).1
+
+/-- `api_fails_fast_after_end`, over whole histories: after `onClose`, through any continuation that does not open the
+object again, every `call()` raises `TransportLost` at once and changes nothing (likewise publish / subscribe /
+register, see `api_fails_fast_after_end`) -/
+theorem api_fails_fast_after_end_history (s : Sess) (acts : List HAct) (h2 : List SEv) (hno : ∀ e ∈ h2, ∀ a, e ≠ .open_ a)
+    (u : Uri) (a : Args) (k : Kwargs) (o : Option CallOpts) (r : SendRes) :
+    let s' := runState (step s (.closed acts)).1 h2
+    step s' (.api (.call u a k o r)) = (s', [.raise_ .transportLost]) := by
+  have key : ∀ (t : Sess) (h : List SEv), t.transport = false → (∀ e ∈ h, ∀ a, e ≠ .open_ a) → (runState t h).transport = false := by
+    intro t h
+    induction h generalizing t with
+    | nil => intro ht _; exact ht
+    | cons e es ih =>
+      intro ht hn
+      rw [runState_cons]
+      refine ih _ ?_ (fun e' he' => hn e' (List.mem_cons_of_mem _ he'))
+      by_cases hcl : ∃ acts, e = .closed acts
+      · obtain ⟨acts, rfl⟩ := hcl; exact closed_ends_everything t acts
+      · rw [transport_written_only_by_onOpen_and_onClose t e (hn e List.mem_cons_self) (fun acts he => hcl ⟨acts, he⟩)]; exact ht
+  exact (api_fails_fast_after_end _ (key _ h2 (closed_ends_everything s acts) hno)).1 u a k o r
+
 /-! ## goodbye_at_most_once / goodbye_answered_iff_not_initiator -/
 
 def isGoodbye : SOut → Bool
